@@ -1,21 +1,23 @@
 #!/bin/bash
-# seedtest.sh <patch.diff> <check ids...>: apply a seeded change to /repo, run repo tests and the given checks, undo.
-# Prints one line per check. Never leaves /repo modified.
+# seedtest.sh <patch.diff> <check ids...>: try a seeded change in a scratch worktree of /repo (never /repo itself):
+# apply, build, run the repo tests and the given checks against the worktree (VERIF_REPO), remove the worktree.
 set -u
 patch=$1; shift
 export GOFLAGS=-mod=mod GOPROXY=off GOSUMDB=off GOTOOLCHAIN=local
-cd /repo || exit 2
-if [ -n "$(git status --porcelain)" ]; then echo "repo not clean"; exit 2; fi
+wt=$(mktemp -d /tmp/seedrun-XXXXXX)
+rmdir "$wt"
+git -C /repo worktree add -q --detach "$wt" HEAD || exit 2
+trap 'git -C /repo worktree remove --force "$wt" 2>/dev/null; rm -rf "$wt"' EXIT
+cd "$wt" || exit 2
 if ! git apply "$patch"; then echo "patch does not apply"; exit 2; fi
-trap 'cd /repo && git checkout -- . && git clean -fdq' EXIT
-if ! go build ./... 2>&1 | tail -3; then echo "BUILD FAILED"; fi
+go build ./... 2>&1 | tail -3
 t=$(go test -vet=off -count=1 ./... 2>&1 | grep -v "no test files" | grep -vc "^ok")
 echo "repo tests: non-ok lines=$t"
 tier=${TIER:-quick}
 for id in "$@"; do
   s=$(date +%s)
-  out=$(/verif/bin/vcheck run $id --tier $tier 2>&1); rc=$?
+  out=$(VERIF_REPO="$wt" /verif/bin/vcheck run $id --tier $tier 2>&1); rc=$?
   e=$(date +%s)
-  echo "$id rc=$rc $((e-s))s $(echo "$out" | grep -c '^VIOLATION') violations; $(echo "$out" | grep -m1 'what:' | cut -c1-200)"
+  echo "$id rc=$rc $((e-s))s $(echo "$out" | grep -c '^VIOLATION') violations; $(echo "$out" | grep -m1 'what:' | cut -c1-220)"
   if [ $rc -eq 2 ]; then echo "$out" | grep -m3 INCONCLUSIVE | cut -c1-240; fi
 done
